@@ -24,6 +24,8 @@ struct NestB { std::vector<int16_t> vals; PtB p; uint16_t n = 0;
 
 // ---- descriptor / value printing / generation -----------------------------------------------
 static unsigned rnd(unsigned n) { return n ? rng() % n : 0; }
+// "big" calls: the first string of the value gets a length at the top of the 16-bit length field (encodings of 64 KiB and more)
+static int g_big = 0;
 static size_t rlen() { static const size_t L[] = {0, 0, 1, 1, 2, 3, 5, 17}; return L[rnd(8)]; }
 static std::string bytes_json(const void *p, size_t n) { std::string s = "["; const unsigned char *u = (const unsigned char *)p; for (size_t i = 0; i < n; ++i) { if (i) s += ","; s += std::to_string((unsigned)u[i]); } return s + "]"; }
 
@@ -41,7 +43,7 @@ template <> struct TI<std::string> {
     static const int depth = 1;
     static std::string desc() { return "{\"k\":\"str\"}"; }
     static std::string json(const std::string &v) { return bytes_json(v.data(), v.size()); }
-    static std::string gen() { size_t n = rnd(12) == 0 ? 255 + rnd(3) : rlen(); std::string s(n, 0); for (auto &c : s) c = (char)(rnd(4) == 0 ? 0 : rnd(256)); return s; } };
+    static std::string gen() { size_t n = rnd(12) == 0 ? 255 + rnd(3) : rlen(); if (g_big > 0) { static const size_t B[] = {65535, 65534, 40000, 32768, 65535}; n = B[rnd(5)]; --g_big; } std::string s(n, 0); for (auto &c : s) c = (char)(rnd(4) == 0 ? 0 : rnd(256)); return s; } };
 template <class T> struct TI<std::vector<T>> {
     static const int depth = 1 + TI<T>::depth;
     static std::string desc() { return "{\"k\":\"vec\",\"t\":" + TI<T>::desc() + "}"; }
